@@ -826,27 +826,68 @@ func runeRejections(fn *ssa.Function) []runeFact {
 		if len(b.Instrs) == 0 {
 			continue
 		}
-		iff, ok := b.Instrs[len(b.Instrs)-1].(*ssa.If)
-		if !ok {
-			continue
+		isRuneCmp := func(v ssa.Value) (*ssa.BinOp, int64, bool) {
+			bo, ok := v.(*ssa.BinOp)
+			if !ok {
+				return nil, 0, false
+			}
+			k, isC := core.ConstInt(bo.Y)
+			if !isC {
+				return nil, 0, false
+			}
+			bt, ok := bo.X.Type().Underlying().(*types.Basic)
+			if !ok || (bt.Kind() != types.Int32 && bt.Kind() != types.Uint8) {
+				return nil, 0, false
+			}
+			return bo, k, true
 		}
-		bo, ok := iff.Cond.(*ssa.BinOp)
-		if !ok {
-			continue
-		}
-		k, isC := core.ConstInt(bo.Y)
-		if !isC {
-			continue
-		}
-		bt, ok := bo.X.Type().Underlying().(*types.Basic)
-		if !ok || (bt.Kind() != types.Int32 && bt.Kind() != types.Uint8) {
-			continue
-		}
-		if returnsConstBool(b.Succs[0], false, 0) {
-			out = append(out, runeFact{bo.Op, k})
+		switch last := b.Instrs[len(b.Instrs)-1].(type) {
+		case *ssa.If:
+			if bo, k, ok := isRuneCmp(last.Cond); ok && leadsToReturnFalse(b, 0) {
+				out = append(out, runeFact{bo.Op, k})
+			}
+		case *ssa.Jump:
+			// last operand of a short-circuit ||: the comparison itself is the phi input
+			to := b.Succs[0]
+			if len(to.Instrs) == 2 {
+				phi, ok1 := to.Instrs[0].(*ssa.Phi)
+				iff, ok2 := to.Instrs[1].(*ssa.If)
+				if ok1 && ok2 && iff.Cond == ssa.Value(phi) && returnsConstBool(to.Succs[0], false, 0) {
+					for i, pred := range to.Preds {
+						if pred == b {
+							if bo, k, ok := isRuneCmp(phi.Edges[i]); ok {
+								out = append(out, runeFact{bo.Op, k})
+							}
+						}
+					}
+				}
+			}
 		}
 	}
 	return out
+}
+
+// leadsToReturnFalse: taking the succ-th edge out of block from leads
+// directly to `return false`, possibly through the merge block of a
+// short-circuit || expression (a bool phi that is true on this edge and is
+// then branched on).
+func leadsToReturnFalse(from *ssa.BasicBlock, succ int) bool {
+	to := from.Succs[succ]
+	if returnsConstBool(to, false, 0) {
+		return true
+	}
+	if len(to.Instrs) == 2 {
+		phi, ok1 := to.Instrs[0].(*ssa.Phi)
+		iff, ok2 := to.Instrs[1].(*ssa.If)
+		if ok1 && ok2 && iff.Cond == ssa.Value(phi) {
+			for i, pred := range to.Preds {
+				if pred == from && isConstBool(phi.Edges[i], true) {
+					return returnsConstBool(to.Succs[0], false, 0)
+				}
+			}
+		}
+	}
+	return false
 }
 
 func returnsConstBool(b *ssa.BasicBlock, want bool, depth int) bool {
